@@ -41,6 +41,7 @@ PREDICT = {
     "threads": [(0, 1, 0)],          # the body blocks in receive(); its daemon threads do not count
     "nonmain_busy": [(0, 1, 0), (None, 0, 0)],
     "lockholder": [(None, 1, 0)],    # sleeping in a callback while holding the receive lock; the interrupt unwinds it
+    "lockholder_inflight": [(None, 1, 0)],   # as lockholder, with one more message read by the receiver thread: it waits for the lock and never sees EOF
     "transfer": [(0, 1, 0)],         # send raises OSError once the connection is gone
     "endmarker_raiser": [(None, 1, 0)],   # a callback that raises when it is handed its endmarker by the epilogue; the body sleeps
     "inbound_transfer": [(0, 1, 0)], # receive() raises EOFError when the connection ends, also in the middle of a message
@@ -179,7 +180,7 @@ def main(tier, seed, replay=None):
 
 
 def real_layer(ck, tier, rng):
-    acts = ["idle", "blocked", "busy", "sleeping", "swallow", "threads", "nonmain_busy", "lockholder", "transfer", "sender", "sender_swallow", "endmarker_raiser", "callback_sysexit", "nondaemon_thread", "inbound_transfer"]
+    acts = ["idle", "blocked", "busy", "sleeping", "swallow", "threads", "nonmain_busy", "lockholder", "transfer", "sender", "sender_swallow", "endmarker_raiser", "callback_sysexit", "nondaemon_thread", "inbound_transfer", "lockholder_inflight"]
     hows = ["kill", "kill", "exit", "close"]
     jobs = []
     if tier == "quick":
@@ -271,7 +272,14 @@ def real_layer(ck, tier, rng):
     except Exception as e:  # noqa
         ck.broke("correspondence", "modelrun-ladder", repr(e))
         mouts = None
+    lad_never = {}
     if mouts:
+        try:
+            for a_ in ("sender", "sender_swallow", "transfer"):
+                for m_ in (1, 0):
+                    lad_never[(a_, m_)] = Model().run([[11] + [x for (e, m, sw) in PREDICT[a_] for x in (-1, m_, sw if a_ != "sender_swallow" else 1)]])[0][0]
+        except Exception as e:  # noqa
+            ck.broke("correspondence", "modelrun-ladder", repr(e))
         for (job, gone_at, left), mo, mo_alt in zip(results, mouts, mouts_alt):
             if gone_at is None or isinstance(left, str):
                 continue
@@ -281,6 +289,14 @@ def real_layer(ck, tier, rng):
             if job[3] == "thread" and not fits(pred) and fits(mo_alt[0]):
                 pred = mo_alt[0]
                 ck.count("ladder_body_outside_main_thread")
+            if job[1] == "close" and job[0] in ("sender", "sender_swallow", "transfer") and not fits(pred):
+                # `close`: the helper closes its read side from a thread that competes with its own receiver thread for the
+                # buffered reader; until it wins, the worker's sends still succeed and the body ends through the ladder instead
+                for alt in (lad_never.get((job[0], 1)), lad_never.get((job[0], 0))):
+                    if alt is not None and fits(alt):
+                        pred = alt
+                        ck.count("ladder_sender_not_cut_off")
+                        break
             ck.count("ladder_branch_%ds" % pred)
             if not fits(pred):
                 ck.broke("correspondence", "ladder-model-vs-real-process", {"activity": job[0], "how": job[1], "execmodel": job[3], "model_exit_s": pred, "observed_s": round(gone_at, 2)})
